@@ -9,7 +9,8 @@ ids=("$@"); [ ${#ids[@]} -eq 0 ] && ids=($(ls seeded))
 for id in "${ids[@]}"; do
   d=seeded/$id
   prop=$(python3 -c "import json,re;m=json.load(open('$d/meta.json'));print(re.search(r'C\d\d',m['caught_by']).group(0))")
-  WT=/tmp/reseed-$$-$id
+  WT=/tmp/verif-mutwt   # one fixed path: the Go build cache is keyed by directory, a fresh path per seed filled the disk
+  git -C /repo worktree remove --force $WT 2>/dev/null
   git -C /repo worktree add -q --detach $WT HEAD || { echo "$id ERROR worktree"; continue; }
   cp /repo/pkg/shell/verif_on.go $WT/pkg/shell/ 2>/dev/null
   if ! (cd $WT && git apply /verif/$d/patch.diff 2>/dev/null); then echo "$id ERROR patch does not apply"; git -C /repo worktree remove --force $WT; continue; fi
